@@ -61,6 +61,13 @@ func genBody(r *core.RNG, tier string) *bodySpec {
 	if tier == "thorough" {
 		max = 3 << 20
 	}
+	if r.Chance(1, 8) {
+		// sizes on and next to the block sizes of the layers below: 512-byte
+		// sectors, the 4096-byte buffered writers, io.Copy's 32 KiB, flate's 64 KiB
+		n := []int{512, 4096, 32768, 65536, 60, 120}[r.Intn(6)] + r.Range(-1, 1)
+		kind := []string{"random", "zeros", "text"}[r.Intn(3)]
+		return &bodySpec{Kind: kind, Len: n, Seed: r.U64()}
+	}
 	switch r.Pick([]int{8, 6, 22, 20, 18, 10, 6, 4}) {
 	case 0:
 		return &bodySpec{Kind: "empty"}
@@ -82,7 +89,9 @@ func genBody(r *core.RNG, tier string) *bodySpec {
 }
 
 func genWrites(r *core.RNG) []int {
-	switch r.Intn(5) {
+	switch r.Intn(6) {
+	case 5:
+		return []int{[]int{512, 4096, 32768, 65536}[r.Intn(4)] + r.Range(-1, 1)}
 	case 0:
 		return nil
 	case 1:
